@@ -151,10 +151,12 @@ struct Built {
 #[derive(serde::Deserialize)]
 struct ScriptFCfg {
     app: usize,
-    pos: usize,
     resp: String,
 }
-struct ScriptFDeser(Log);
+/// The position of a scripted filter is not written in the document (two entries with the same response are
+/// then *identical* entries): it is the filter's index in the appender's declared chain, counted as the
+/// entries are deserialized.
+struct ScriptFDeser(Log, Mutex<std::collections::HashMap<usize, Vec<usize>>>);
 impl log4rs::config::Deserialize for ScriptFDeser {
     type Trait = dyn Filter;
     type Config = ScriptFCfg;
@@ -164,7 +166,10 @@ impl log4rs::config::Deserialize for ScriptFDeser {
             "N" => R::N,
             _ => R::Rj,
         };
-        Ok(Box::new(ScriptF { app: c.app, pos: c.pos, resp, log: self.0.clone() }))
+        let mut m = self.1.lock().unwrap();
+        let slots = m.entry(c.app).or_default();
+        let pos = if slots.is_empty() { 0 } else { slots.remove(0) };
+        Ok(Box::new(ScriptF { app: c.app, pos, resp, log: self.0.clone() }))
     }
 }
 
@@ -186,9 +191,13 @@ impl log4rs::config::Deserialize for CaptureDeser {
 fn build_from_document(apps: &[AppSpec], root_level: LevelFilter, on_child: &[usize]) -> Result<Built, String> {
     let log: Log = Arc::new(Mutex::new(vec![]));
     let mut appenders = serde_json::Map::new();
+    let mut positions: std::collections::HashMap<usize, Vec<usize>> = Default::default();
     for (i, a) in apps.iter().enumerate() {
         let filters: Vec<Value> = a.chain.iter().enumerate().map(|(pos, f)| match *f {
-            F::S(resp) => json!({"kind": "script", "app": i, "pos": pos, "resp": resp.ch().to_string()}),
+            F::S(resp) => {
+                positions.entry(i).or_insert_with(Vec::new).push(pos);
+                json!({"kind": "script", "app": i, "resp": resp.ch().to_string()})
+            }
             F::T(l) => json!({"kind": "threshold", "level": l.to_string()}),
         }).collect();
         appenders.insert(format!("app{}", i), json!({"kind": "capture", "app": i, "fail": a.fail, "filters": filters}));
@@ -202,7 +211,7 @@ fn build_from_document(apps: &[AppSpec], root_level: LevelFilter, on_child: &[us
     let path = sc.join("log4rs.json");
     std::fs::write(&path, doc.to_string()).map_err(|e| e.to_string())?;
     let mut d = log4rs::config::Deserializers::default();
-    d.insert("script", ScriptFDeser(log.clone()));
+    d.insert("script", ScriptFDeser(log.clone(), Mutex::new(positions)));
     d.insert("capture", CaptureDeser(log.clone()));
     let cfg = log4rs::config::load_config_file(&path, d).map_err(|e| format!("{:#}", e))?;
     if cfg.appenders().len() != apps.len() {
@@ -561,6 +570,30 @@ pub fn run(rep: &mut Report) {
         if idx < 2 {
             rep.sample(json!({"appenders": describe(&apps), "root_level": root_level.to_string(),
                 "also_on_child_c": on_child}));
+        }
+    });
+    // (4) hundreds of consecutive failing records under one configuration: every single error reaches the handler
+    run_cases(rep, "streak", 4, |rep, _rng, idx| {
+        let apps = vec![
+            AppSpec { chain: vec![], fail: true },
+            AppSpec { chain: vec![F::S(R::N)], fail: idx % 2 == 1 },
+            AppSpec { chain: vec![], fail: false },
+        ];
+        let built = match build(&apps, LevelFilter::Trace, &[]) {
+            Ok(b) => b,
+            Err(e) => {
+                rep.violation("C03:valid-config-rejected", json!({"error": e}));
+                return;
+            }
+        };
+        let n = if idx < 2 { 700 } else { 70_000 / 100 + 300 };
+        for k in 0..n as u64 {
+            rep.case(&format!("streak|{}|{}", idx, k), true);
+            rep.count("records_in_long_failing_streaks", 1);
+            check_one(rep, &apps, LevelFilter::Trace, &[], "x", LEVELS[(k % 5) as usize], 1_000_000 + idx * 10_000 + k, &built);
+            if !rep.violations.is_empty() {
+                break;
+            }
         }
     });
     rep.exhaustive = Some(false);
